@@ -31,6 +31,18 @@ int main(int argc, char** argv) {
         return o.str();
     };
 
+    // Eigen kernel quirks of this build that are recorded C02 findings (not libfive logic): after a full
+    // evaluation through the base tape, does any clause hit one?  pow(-inf, k) (= +inf here for odd k) and
+    // exp(x) saturating to +inf just below the overflow threshold.  A specialised/full mismatch at such a point
+    // is the same finding seen through tape pruning (the interval is right, the point kernel is not).
+    auto quirk = [&]() {
+        for (auto it = deck->tape->rbegin(); it != deck->tape->rend(); ++it) {
+            if (it->op == Opcode::OP_POW && std::isinf(arr->slot(it->a, 0)) && arr->slot(it->a, 0) < 0) return 1;
+            if (it->op == Opcode::OP_EXP && arr->slot(it->a, 0) > 88.3f && arr->slot(it->a, 0) < 88.8f) return 1;
+        }
+        return 0;
+    };
+
     while (std::getline(in, line)) {
         auto w = split(line);
         if (w.empty()) continue;
@@ -83,7 +95,7 @@ int main(int argc, char** argv) {
             for (auto it = deck->tape->rbegin(); it != deck->tape->rend(); ++it)
                 anynan |= std::isnan(arr->slot(it->id, 0));
             std::cout << "val " << w[1] << " " << w[2] << " " << w[3] << " " << hex(cur) << " " << hex(base)
-                      << " nan " << (anynan ? 1 : 0) << "\n";
+                      << " nan " << (anynan ? 1 : 0) << " q " << quirk() << "\n";
         } else if (w[0] == "vals") {            // vals <n> then n points: batch through current tape
             size_t n = atoi(w[1].c_str());
             for (size_t k = 0; k < n; ++k)
@@ -106,15 +118,30 @@ int main(int argc, char** argv) {
             for (auto it = deck->tape->rbegin(); it != deck->tape->rend(); ++it)
                 anynan |= std::isnan(arr->slot(it->id, 0));
             std::cout << "base-at " << w[1] << " " << w[2] << " " << w[3] << " depth " << depth << " of "
-                      << stack.size() << " " << hex(viaB) << " " << hex(base) << " nan " << (anynan ? 1 : 0) << "\n";
-        } else if (w[0] == "baser") {           // getBase(region)
+                      << stack.size() << " " << hex(viaB) << " " << hex(base) << " q " << quirk() << " nan " << (anynan ? 1 : 0) << "\n";
+        } else if (w[0] == "baser") {           // getBase(region) from the current tape, then k sample points
             Eigen::Vector3d lo(unhex(w[1]), unhex(w[2]), unhex(w[3]));
             Eigen::Vector3d hi(unhex(w[4]), unhex(w[5]), unhex(w[6]));
             auto b = stack.back()->getBase(Region<3>(lo, hi));
             int depth = -1;
             for (size_t k = 0; k < stack.size(); ++k) if (stack[k] == b) { depth = (int)k; break; }
             std::cout << "base-region " << w[1] << " " << w[2] << " " << w[3] << " " << w[4] << " " << w[5]
-                      << " " << w[6] << " depth " << depth << " of " << stack.size() << "\n";
+                      << " " << w[6] << " depth " << depth << " of " << stack.size();
+            // property oracle: the returned tape agrees with the full expression at points of the query box
+            size_t n = w.size() > 7 ? atoi(w[7].c_str()) : 0;
+            std::cout << " pts " << n;
+            for (size_t k = 0; k < n; ++k) {
+                Eigen::Vector3f p(unhex(w[8 + 3 * k]), unhex(w[9 + 3 * k]), unhex(w[10 + 3 * k]));
+                forceRoundNearest();
+                float viaB = arr->value(p, *b);
+                forceRoundNearest();
+                float base = arr->value(p, *deck->tape);
+                bool anynan = false;
+                for (auto it = deck->tape->rbegin(); it != deck->tape->rend(); ++it)
+                    anynan |= std::isnan(arr->slot(it->id, 0));
+                std::cout << " " << hex(viaB) << " " << hex(base) << " " << ((anynan || quirk()) ? 1 : 0);
+            }
+            std::cout << "\n";
         } else if (w[0] == "types") {           // tape types and regions of the stack (innermost last)
             std::cout << "types " << stack.size();
             for (auto& t : stack) std::cout << " " << (int)TapePeek::typeOf(*t);
